@@ -169,12 +169,17 @@ fn record(args: &Args) {
         let mut y = DecryptionRatchet::init(secret(seed));
         let vary = rng.chance(1, 4);
         let windows: [u32; 8] = [0, 1, 2, 3, 5, 8, 20, 40];
-        let fwd0 = *rng.pick(&windows);
-        let ooo0 = *rng.pick(&windows);
+        let mut fwd0 = *rng.pick(&windows);
+        let mut ooo0 = *rng.pick(&windows);
         trace.event(json!({"ev": "Reset", "run": run, "vary": vary}));
         // delivery order
         let mut order: Vec<u32> = (0..gens as u32).collect();
         let radius = rng.range(0, 12) as usize;
+        if rng.chance(1, 2) {
+            // windows that fit the disorder: most requests are served
+            fwd0 = radius as u32 + rng.below(3) as u32;
+            ooo0 = radius as u32 + rng.below(3) as u32;
+        }
         if radius > 0 {
             for i in 0..order.len() {
                 let j = (i + rng.below(radius as u64 + 1) as usize).min(order.len() - 1);
